@@ -155,7 +155,31 @@ pub fn run(ctx: &Ctx) {
     );
 }
 
+/// pools that have a filter installed: the single-threaded analyzer with the same filter is the reference
+/// (generator and oracle shared with C15's pool sub-check)
+pub fn run_filtered(ctx: &Ctx) {
+    use crate::props::c15;
+    ctx.shrink_iters.store(15, std::sync::atomic::Ordering::Relaxed);
+    let n = ctx.tier.pick(1_200, 20_000);
+    ctx.run_prop(
+        "pool-with-filter-vs-sequential",
+        "traces x filters built from the trace's own endpoints, through the TCP / HTTP / TLS worker pools (1..6 workers, batch 16) with the filter installed; oracle: the sequential analyzer on the sub-trace the filter admits, results compared as multisets; non-trivial: the filter admits a proper non-empty subset",
+        n,
+        || (c15::filt_case(), 0u8..3, 1usize..7),
+        |(c, k, w): &(c15::FiltCase, u8, usize), st: &mut Stats| {
+            st.sample(|| json!({"filter": format!("{:?}", c15::filter_of(c)), "pool": k % 3, "workers": w}));
+            c15::check_pool(c, *k, *w, st)
+        },
+    );
+    ctx.shrink_iters.store(1200, std::sync::atomic::Ordering::Relaxed);
+}
+
 pub fn replay(_ctx: &Ctx, _sub: &str, input: &serde_json::Value) -> Result<(), Fail> {
+    if _sub == "pool-with-filter-vs-sequential" {
+        let (c, k, w): (crate::props::c15::FiltCase, u8, usize) = serde_json::from_value(input["value"].clone()).map_err(|e| fail!("bad-replay", "{e}"))?;
+        let mut st = Stats::new();
+        return crate::props::c15::check_pool(&c, k, w, &mut st);
+    }
     let c: ParCase = serde_json::from_value(input["value"].clone()).map_err(|e| fail!("bad-replay", "{e}"))?;
     let mut st = Stats::new();
     check(&c, &mut st)
